@@ -34,7 +34,7 @@ Definition e_waiting (pc : wpc) : bool := match pc with WFbWaitE _ | WFbParkedE 
 Definition is_hcnotify (pc : iopc) : bool := match pc with IoHcNotify _ => true | _ => false end.
 Definition k_set (pc : iopc) : bool :=
   match pc with
-  | IoFlush ML | IoSubL _ | IoNotify | IoRelX | IoHwExn | IoHcAcq _ | IoHcTot _ => true
+  | IoFlush | IoSubL _ | IoNotify | IoRelX | IoHwExn | IoHcAcq _ | IoHcTot _ => true
   | _ => false
   end.
 Definition k_hw (pc : iopc) : bool :=
@@ -87,12 +87,12 @@ Section Step.
     intros (H0 & H1 & H2 & H3) H E. ds s.
     unfold L4, w_parked in H. unfold L0 in H0. unfold L1 in H1. unfold L2 in H2. unfold L3 in H3. cbn in H, H0, H1, H2, H3.
     destruct H0 as (Ho & Hc & Hx & _).
-    destruct H1 as (Ha & Hq & Hu & _ & Hl).
+    destruct H1 as (Ha & Hq & _ & _ & Hl & _).
     destruct H2 as (F1 & F2 & F3 & F4 & F5 & F6 & F7 & F8 & F9).
-    destruct H3 as (A1 & _ & A3 & A4 & _ & _ & A7 & _).
+    destruct H3 as (A1 & A3 & A4 & _ & _ & A7 & _).
     destruct H as (T1 & T2 & N & P & W & M & K & J1 & J2).
     unfold step_io in E. cbn [ChanFlow.io] in E.
-    destruct io0; cbn in A1, A4, A7, F2, F3, F7, F8, Ho, Hc, Hx, Hu, M, K, J1, J2.
+    destruct io0; cbn in A1, A4, A7, F2, F3, F7, F8, Ho, Hc, Hx, M, K, J1, J2.
     all: cbn in E; unf; cbn in E.
     all: split_ifs E; try discriminate; try inv_some.
     all: fin4.
@@ -104,9 +104,9 @@ Section Step.
     intros (H0 & H1 & H2 & H3) H E. ds s.
     unfold L4, w_parked in H. unfold L0 in H0. unfold L1 in H1. unfold L2 in H2. unfold L3 in H3. cbn in H, H0, H1, H2, H3.
     destruct H0 as (Ho & Hc & Hx & _ & _ & _ & Hwok).
-    destruct H1 as (Ha & Hq & Hu & _ & Hl).
+    destruct H1 as (Ha & Hq & _ & _ & Hl & _).
     destruct H2 as (F1 & F2 & F3 & F4 & F5 & F6 & F7 & F8 & F9).
-    destruct H3 as (A1 & _ & A3 & A4 & _ & _ & A7 & _).
+    destruct H3 as (A1 & A3 & A4 & _ & _ & A7 & _).
     destruct H as (T1 & T2 & N & P & W & M & K & J1 & J2).
     destruct Hts as [Hlk|Hres].
     all: unfold step_w in E; cbn [ChanFlow.wk] in E.
@@ -118,11 +118,11 @@ Section Step.
 
   Lemma L4_step s c s' l : Lall p s -> L4 p s -> step p s c = Some (s', l) -> L4 p s'.
   Proof.
-    destruct c as [r res|r|b|a]; cbn [step].
+    destruct c as [r res|r|n|a]; cbn [step].
     - apply L4_step_io.
     - apply L4_step_w.
-    - intros _ H E. ds s. unfold step_tail in E. cbn in E.
-      split_ifs E; try discriminate; inv_some; unfold L4, w_parked in *; cbn in *;
+    - intros _ H E. ds s. unfold step_tail in E. destruct n as [|[|[|[|[|[|n]]]]]]; cbn in E; try discriminate.
+      all: split_ifs E; try discriminate; inv_some; unfold L4, w_parked in *; cbn in *;
         destruct H as (T1 & T2 & N & P & W & M & K & J1 & J2); repeat split; auto.
     - intros _ H E. ds s. destruct a; cbn in E; split_ifs E; try discriminate; inv_some; exact H.
   Qed.
